@@ -295,6 +295,110 @@ impl BobState {
     }
 }
 
+/// Verification hooks: the private frame codec and the two session drivers, exported as they are.
+#[cfg(iroh_docs_verif)]
+pub mod verif {
+    use super::*;
+
+    /// Mirror of the private frame [`Message`].
+    #[derive(Debug, Clone)]
+    pub enum Frame {
+        /// `Message::Init`
+        Init {
+            /// namespace
+            namespace: NamespaceId,
+            /// initial message
+            message: crate::sync::ProtocolMessage,
+        },
+        /// `Message::Sync`
+        Sync(crate::sync::ProtocolMessage),
+        /// `Message::Abort`
+        Abort {
+            /// reason
+            reason: AbortReason,
+        },
+    }
+
+    impl From<Frame> for Message {
+        fn from(f: Frame) -> Message {
+            match f {
+                Frame::Init { namespace, message } => Message::Init { namespace, message },
+                Frame::Sync(m) => Message::Sync(m),
+                Frame::Abort { reason } => Message::Abort { reason },
+            }
+        }
+    }
+
+    impl From<Message> for Frame {
+        fn from(f: Message) -> Frame {
+            match f {
+                Message::Init { namespace, message } => Frame::Init { namespace, message },
+                Message::Sync(m) => Frame::Sync(m),
+                Message::Abort { reason } => Frame::Abort { reason },
+            }
+        }
+    }
+
+    /// `SyncCodec::encode` into an empty buffer.
+    pub fn encode_frame(frame: Frame) -> anyhow::Result<Vec<u8>> {
+        let mut dst = BytesMut::new();
+        SyncCodec.encode(frame.into(), &mut dst)?;
+        Ok(dst.to_vec())
+    }
+
+    /// What the incremental decoder did with the bytes fed so far.
+    #[derive(Debug)]
+    pub enum Decoded {
+        /// a complete frame
+        Frame(Frame),
+        /// `Ok(None)`: more bytes are needed
+        NeedMore,
+        /// the decoder reported an error
+        Error(String),
+    }
+
+    /// Feed `chunks` one after the other to one `SyncCodec` decoder (as `FramedRead` does),
+    /// decoding as many frames as possible after each chunk. Returns everything the decoder
+    /// produced, ending with `NeedMore` or `Error`, and the number of undecoded bytes left.
+    pub fn decode_chunks(chunks: &[Vec<u8>]) -> (Vec<Decoded>, usize) {
+        let mut buf = BytesMut::new();
+        let mut out = Vec::new();
+        let mut codec = SyncCodec;
+        'outer: for chunk in chunks {
+            buf.extend_from_slice(chunk);
+            loop {
+                match codec.decode(&mut buf) {
+                    Ok(Some(m)) => out.push(Decoded::Frame(m.into())),
+                    Ok(None) => break,
+                    Err(e) => {
+                        out.push(Decoded::Error(format!("{e:#}")));
+                        break 'outer;
+                    }
+                }
+            }
+        }
+        if !matches!(out.last(), Some(Decoded::Error(_))) {
+            out.push(Decoded::NeedMore);
+        }
+        (out, buf.len())
+    }
+
+    /// [`run_alice`], the initiating side of a session.
+    pub async fn run_alice<R: AsyncRead + Unpin, W: AsyncWrite + Unpin>(
+        writer: &mut W,
+        reader: &mut R,
+        handle: &SyncHandle,
+        namespace: NamespaceId,
+        peer: PublicKey,
+    ) -> Result<SyncOutcome, ConnectError> {
+        super::run_alice(writer, reader, handle, namespace, peer).await
+    }
+
+    pub use super::BobState;
+    /// the frame size limit of the codec
+    pub const MAX_FRAME_SIZE: usize = super::MAX_MESSAGE_SIZE;
+}
+
 #[cfg(test)]
 mod tests {
     use anyhow::Result;
